@@ -96,6 +96,17 @@ class InputFactory:
                               sum([x.coords for x in subs + list(ksubs.values())], []))
                 si.parts = {'args': subs, 'kwargs': ksubs}
                 return si
+            if kind == 'raw':
+                # ('raw', 'mod:Class', {field: sort}): instance with the given fields, constructor not run
+                cls = self.resolve(sort[1])
+                subs = {k: self.make(v, f'{hint}_{k}') for k, v in sort[2].items()}
+                inst = Instance(cls, {k: s.value for k, s in subs.items()})
+                return SymInput(sort, inst, lambda m: {'raw': sort[1], 'fields': {k: s.extract(m) for k, s in subs.items()}},
+                                sum([s.sizes for s in subs.values()], []), sum([s.coords for s in subs.values()], []))
+            if kind == 'dict':
+                subs = {k: self.make(v, f'{hint}_{k}') for k, v in sort[1].items()}
+                return SymInput(sort, {k: s.value for k, s in subs.items()},
+                                lambda m: {'dict': {k: s.extract(m) for k, s in subs.items()}})
             if kind == 'opt':
                 if I.branch(I.fresh_bool(hint + '_isnone')):
                     return SymInput(sort, None, lambda m: {'none': 1})
@@ -141,6 +152,12 @@ class InputFactory:
             from .verify import StubToken
             tok = StubToken(hint, 0)
             return SymInput(sort, tok, lambda m: {'token': hint})
+        if sort == 'SpaceType':
+            cls = self.I.load_module('gym_gridverse.representations.spaces').ns['SpaceType']
+            ev = I.fresh_enum(cls, hint)
+            return SymInput(sort, ev, lambda m: {'enum': 'SpaceType', 'name': str(mval(m, ev.term))})
+        if sort == 'str':
+            return SymInput(sort, 'name', lambda m: 'name')
         ec = self.enum_cls(sort)
         if ec:
             cls = self.cls(*ec)
